@@ -25,6 +25,11 @@ DEPENDS = [
     ("C05", {"why": "both backends run the optimized rules: each pass must preserve the matched language and the stack "
                     "restoration points"}),
     ("C07", {"why": "the grammar text must be read into the AST it denotes before either backend sees it"}),
+    ("C11", {"why": "PUSH / POP / PEEK / DROP and the restoration of the stack after a failed alternative are Stack's "
+                    "snapshot protocol: the documented stack semantics hold only if it implements the copying model"}),
+    ("C02", {"only_rules": ["RULE", "ENTRY", "BUILTINS", "SKIP"], "skip_keys": ["NodeTag"],
+             "why": "the property is stated for both back-ends: each must wrap every kind of rule (ordinary and "
+                    "WHITESPACE/COMMENT) in the documented token / atomicity nesting and resolve the same built-ins"}),
 ]
 
 MANIFEST = {
